@@ -98,9 +98,23 @@ def _exec_case(case):
             if qm.activation_qtype is None:
                 aq = None
     if case["frozen"]:
-        r = cut(freeze, model)
+        how = ["freeze", "freeze", "load", "load-assign"][case["seed"] % 4] if "seed" in case else "freeze"
+        if how == "freeze":
+            r = cut(freeze, model)
+        else:
+            # the other legal way of becoming frozen: loading the state_dict of a frozen copy into the not yet frozen model
+            import copy
+
+            def by_load():
+                twin = copy.deepcopy(model)
+                freeze(twin)
+                model.load_state_dict(twin.state_dict(), assign=(how == "load-assign"))
+
+            r = cut(by_load)
+            out.klass.append(f"frozen-by-{how}")
         if isinstance(r, Raised):
             return out.fail(f"freeze-raises:{r.type}", r.text)
+        qm = model[0]
     base = x.clone().requires_grad_(True)
     inp = _perm(base) if case["xlayout"] == "permuted" else base
     fed = inp
